@@ -308,6 +308,47 @@ func (e *Engine) intercept(fn *ssa.Function, args []Value) (Value, bool) {
 		e.stub(key)
 		e.bigVals[args[0].(PtrV).L] = e.toMathInt(args[1].(*Term), true)
 		return args[0], true
+	case "math/big.NewInt":
+		e.stub(key)
+		l := e.newLoc(fn.Signature.Results().At(0).Type().(*types.Pointer).Elem())
+		e.bigVals[l] = e.toMathInt(args[0].(*Term), true)
+		return PtrV{l}, true
+	case "(*math/big.Int).Abs":
+		e.stub(key)
+		v := e.bigOf(args[1])
+		e.bigVals[args[0].(PtrV).L] = tb.Ite(tb.ICmp("<", v, tb.Int(0)), tb.IBin("-", tb.Int(0), v), v)
+		return args[0], true
+	case "(*math/big.Int).QuoRem":
+		e.stub(key)
+		x, y := e.bigOf(args[1]), e.bigOf(args[2])
+		if e.decide(tb.Eq(y, tb.Int(0)), "big-divzero") {
+			e.progPanic("division by zero (big.Int.QuoRem)")
+		}
+		e.bigVals[args[0].(PtrV).L] = e.intQuo(x, y)
+		e.bigVals[args[3].(PtrV).L] = e.intRem(x, y)
+		return TupleV{args[0], args[3]}, true
+	case "(*math/big.Int).DivMod":
+		e.stub(key)
+		x, y := e.bigOf(args[1]), e.bigOf(args[2])
+		if e.decide(tb.Eq(y, tb.Int(0)), "big-divzero") {
+			e.progPanic("division by zero (big.Int.DivMod)")
+		}
+		e.bigVals[args[0].(PtrV).L] = tb.IBin("div", x, y)
+		e.bigVals[args[3].(PtrV).L] = tb.IBin("mod", x, y)
+		return TupleV{args[0], args[3]}, true
+	case "(*math/big.Int).Lsh", "(*math/big.Int).Rsh":
+		sh, ok := args[2].(*Term)
+		if !ok || !sh.IsConst() || sh.val.BitLen() > 12 {
+			return nil, false // symbolic shift count: unmodelled
+		}
+		e.stub(key)
+		p := tb.IntBig(pow2(int(sh.val.Int64())))
+		if strings.HasSuffix(key, "Lsh") {
+			e.bigVals[args[0].(PtrV).L] = tb.IBin("*", e.bigOf(args[1]), p)
+		} else {
+			e.bigVals[args[0].(PtrV).L] = tb.IBin("div", e.bigOf(args[1]), p) // floor, as math/big (arithmetic shift)
+		}
+		return args[0], true
 	case "(*math/big.Int).Mul":
 		e.stub(key)
 		e.bigVals[args[0].(PtrV).L] = tb.IBin("*", e.bigOf(args[1]), e.bigOf(args[2]))
